@@ -1,45 +1,102 @@
 (* C12 — Tokenization always progresses, tiles the input and tracks lines.
-   Model: Lex/LexerRT.v (go_lexer.go.tmpl: Next with the restart loop, handleInvalidToken, rewind, line and
-   column bookkeeping). *)
+   Model: Lex/LexerRT.v (go_lexer.go.tmpl: Next with the restart loop, the DFA loop with end-of-input moves and
+   checkpoints, handleInvalidToken, rewind, line and column bookkeeping); Lex/LexerWf.v (wf_lexer_tables, lex_all).
+   All theorems: for EVERY lexer description accepted by the boolean wf_lexer_tables — evaluated on the real tables of
+   every generated lexer and (structural part) every shipped lexer on each run — every valid start condition and
+   EVERY byte string (bytes_ok: values 0..255, invalid UTF-8 included). *)
 From Coq Require Import List ZArith Bool.
-From TM Require Import Lex.Tables Lex.Scan Lex.LexerRT Lex.LexerRT_proofs.
+From TM Require Import Lex.Tables Lex.Scan Lex.LexerRT Lex.LexerRT_proofs Lex.LexerWf Lex.LexerWf_proofs.
 Import ListNotations.
 Local Open Scope Z_scope.
 
-(* forced progress (partial): the step handleInvalidToken takes when nothing was consumed — rewind(scanOffset), i.e.
-   reading one character — never moves backwards and moves strictly forward unless the input is exhausted, for every
-   byte string (invalid UTF-8 included) in rune and byte mode. *)
-Theorem C12_forced_step_progress_partial : forall bytes scan rest,
+(* linv lx l: the lexer state l is consistent with its source: 0 <= offset <= len, (ch, scanOffset) is the character
+   read at offset, line = 1 + newlines before offset, lineOffset = offset after the last newline before offset.
+   Init establishes it: *)
+Theorem C12_init_invariant : forall lx src, bytes_ok src ->
+  linv lx (init lx src) /\ l_src (init lx src) = src /\ l_off (init lx src) = 0.
+Proof. exact init_ok. Qed.
+
+(* (a) next_terminates + (b) progress + (d) line/column of the first byte.  One call of Next with fuel
+   1 + remaining bytes (next_fuel) returns — running out of fuel is impossible — and the state l' after it satisfies:
+   invariant kept, same source, previous offset <= tokenOffset' <= offset' (tokens ordered, not overlapping),
+   the token is non-empty unless it is end-of-input (token 0) at the end of the input,
+   Line() = 1 + number of '\n' before tokenOffset', Column() = tokenOffset' - (offset after the last '\n' before it) + 1. *)
+Theorem C12_next_terminates_and_progresses : forall lx sc l,
+  wf_lexer_tables lx = true -> In (nthZ (state_map (lx_tables lx)) sc) (state_map (lx_tables lx)) -> linv lx l ->
+  exists tok l', next_tok (next_fuel l) lx sc l = Some (tok, l') /\
+    linv lx l' /\ l_src l' = l_src l /\ l_off l <= l_tokoff l' /\ l_tokoff l' <= l_off l' /\
+    (l_tokoff l' < l_off l' \/ (tok = 0 /\ l_off l' = slen l' /\ l_tokoff l' = l_off l')) /\
+    (lx_token_line lx = true -> l_tokline l' = 1 + count_nl (firstn (Z.to_nat (l_tokoff l')) (l_src l'))) /\
+    (lx_token_line lx && lx_token_column lx = true ->
+       l_tokcol l' = l_tokoff l' - after_last_nl (firstn (Z.to_nat (l_tokoff l')) (l_src l')) 0 0 + 1).
+Proof. intros lx sc l Hwf Hsc Hl. exact (next_terminates lx Hwf sc Hsc l Hl). Qed.
+
+(* eoi_repeats: once the offset is at the end, Next answers end-of-input at [len, len) and stays in such a state *)
+Theorem C12_eoi_repeats : forall lx sc l,
+  wf_lexer_tables lx = true -> In (nthZ (state_map (lx_tables lx)) sc) (state_map (lx_tables lx)) ->
+  linv lx l -> l_off l = slen l ->
+  exists l', next_tok (next_fuel l) lx sc l = Some (0, l') /\ linv lx l' /\ l_src l' = l_src l /\
+             l_off l' = slen l' /\ l_tokoff l' = slen l'.
+Proof. intros lx sc l Hwf Hsc. exact (eoi_repeats lx Hwf sc Hsc l). Qed.
+
+(* (c) tokens_finite_and_end_in_eoi + tiling.  Iterating Next from any consistent state ends with an end-of-input
+   token after at most 1 + remaining bytes calls; the observed records [token; start; end; line; column] satisfy
+   stream_ok: every token but the last is non-zero and non-empty (start < end), starts at or after the end of its
+   predecessor, the last one is token 0, and every record carries the line / column of its first byte. *)
+Theorem C12_tokens_finite_and_end_in_eoi : forall lx sc src,
+  wf_lexer_tables lx = true -> In (nthZ (state_map (lx_tables lx)) sc) (state_map (lx_tables lx)) -> bytes_ok src ->
+  exists toks, lex_all (S (length src)) lx sc (init lx src) = Some toks /\ stream_ok lx src 0 toks.
+Proof.
+  intros lx sc src Hwf Hsc Hsrc. destruct (init_ok lx src Hsrc) as (Hi & Hs & Ho).
+  destruct (tokens_finite_and_end_in_eoi lx Hwf sc Hsc (S (length src)) (init lx src)) as (toks & E & Hok).
+  - unfold remaining, slen. rewrite Hs, Ho. apply Nat.lt_succ_r. rewrite Z.sub_0_r, Nat2Z.id. apply Nat.le_refl.
+  - exact Hi.
+  - exists toks. rewrite Hs, Ho in Hok. split; assumption.
+Qed.
+
+(* the function that is extracted and compared with the generated lexers never reports "out of fuel" (-3) *)
+Theorem C12_model_never_out_of_fuel : forall lx sc src bom,
+  wf_lexer_tables lx = true -> In (nthZ (state_map (lx_tables lx)) sc) (state_map (lx_tables lx)) -> bytes_ok src ->
+  ~ In [-3] (run_lexer lx sc src bom).
+Proof. intros lx sc src bom Hwf Hsc. exact (run_lexer_never_out_of_fuel lx Hwf sc Hsc src bom). Qed.
+
+(* building blocks kept from round 1 *)
+Theorem C12_forced_step_progress : forall bytes scan rest,
   let '(ch, scan', rest') := read_char bytes scan rest in
   (rest = [] -> ch = -1 /\ scan' = scan) /\
   (rest <> [] -> scan < scan' /\ scan' + Z.of_nat (length rest') = scan + Z.of_nat (length rest)).
 Proof. exact read_char_progress. Qed.
 
-(* line bookkeeping (partial): counting newlines while advancing and recounting a slice on rewind agree because the
-   count is additive; the line offset computed by rewind (1 + LastIndexByte) lies after the last newline. *)
 Theorem C12_newline_count_additive : forall a b, count_nl (a ++ b) = count_nl a + count_nl b.
 Proof. exact count_nl_app. Qed.
 
-Theorem C12_line_offset_after_last_newline : forall s i acc, 0 <= acc <= i ->
-  let r := after_last_nl s i acc in
-  acc <= r <= i + Z.of_nat (length s) /\ (count_nl s = 0 -> r = acc) /\ (count_nl s > 0 -> i < r).
-Proof. exact after_last_nl_spec. Qed.
+(* NOT proved (partial): gaps_are_space_matches at the rule level (the text between tokens is matched by space rules:
+   needs the regex-level specification, monitored per run by C12/C11), "end-of-input is returned only at the end"
+   (a rule may map to token 0), and the action contract for hand-written actions of the tm/js/test lexers (their
+   streams are monitored; test.tm's inMultiLine condition relies on its action to leave the state at end-of-input,
+   so only the structural part wf_tables is demanded from lexers with actions). *)
 
-(* NOT proved (partial): next_terminates, tokens_finite_and_end_in_eoi, eoi_repeats, non_eoi_tokens_nonempty,
-   tokens_ordered_disjoint, gaps_are_space_matches, line_column_of_first_byte for the whole Next loop.  These are
-   checked by the monitor on every run: generated lexers of random grammars (vs the LexerRT model and vs the
-   statement itself) and the five shipped lexers on hostile byte strings.  The model makes non-termination
-   observable: it runs out of fuel exactly where the generated lexer hangs (F7). *)
+(* non-vacuity: the tables of /[ \t\n]+/ (space) with invalid_token = 1 are well-formed; "+\n+" *)
+Definition ex_lx : lexer :=
+  mkLexer (mkTables false [(0, 1); (9, 2); (11, 1); (32, 2); (33, 1)] 3 [0] [-2; -2; 1; -3; -3; 1] [])
+          [] [2] 1 [] [] true true.
 
-(* the model on the tables of /[ \t\n]+/ (space) with invalid_token = 1: "+\n+" gives invalid tokens at
-   (line 1, column 1) and (line 2, column 1), then end-of-input three times *)
-Example C12_model_example :
-  let lx := mkLexer (mkTables false [(0, 1); (9, 2); (11, 1); (32, 2); (33, 1)] 3 [0] [-2; -2; 1; -3; -3; 1] [])
-                    [] [2] 1 [] [] true true in
-  run_lexer lx 0 [43; 10; 43] true =
+Example C12_hypotheses_met :
+  wf_lexer_tables ex_lx = true /\ In (nthZ (state_map (lx_tables ex_lx)) 0) (state_map (lx_tables ex_lx)) /\
+  lex_all 4 ex_lx 0 (init ex_lx [43; 10; 43]) = Some [[1; 0; 1; 1; 1]; [1; 2; 3; 2; 1]; [0; 3; 3; 2; 2]] /\
+  run_lexer ex_lx 0 [43; 10; 43] true =
     [[1; 0; 1; 1; 1]; [1; 2; 3; 2; 1]; [0; 3; 3; 2; 2]; [0; 3; 3; 2; 2]; [0; 3; 3; 2; 2]].
+Proof. vm_compute. repeat split; try reflexivity. left. reflexivity. Qed.
+
+(* an end-of-input self-loop (state 1 moves to itself on the end marker: /x{eoi}+/, F7) is rejected by the predicate *)
+Example C12_eoi_cycle_rejected :
+  wf_lexer_tables (mkLexer (mkTables false [(0, 1); (120, 2); (121, 1)] 3 [0] [-1; -1; 1; 1; -2; -2] []) [] [] 1 [] [] true true) = false.
 Proof. vm_compute. reflexivity. Qed.
 
-Print Assumptions C12_forced_step_progress_partial.
+Print Assumptions C12_init_invariant.
+Print Assumptions C12_next_terminates_and_progresses.
+Print Assumptions C12_eoi_repeats.
+Print Assumptions C12_tokens_finite_and_end_in_eoi.
+Print Assumptions C12_model_never_out_of_fuel.
+Print Assumptions C12_forced_step_progress.
 Print Assumptions C12_newline_count_additive.
-Print Assumptions C12_line_offset_after_last_newline.
